@@ -134,7 +134,7 @@ def c11_history(col, rng, hidx, jobref=None):
     for step in range(rng.randint(3, 10)):
         k = rng.choice(list(insts))
         d, m = insts[k], model[k]
-        op = rng.choice(["call", "call", "exec", "exec", "setup", "setup_t", "copy", "exec_create", "exec_run_pending", "config"])
+        op = rng.choice(["call", "call", "exec", "exec", "setup", "setup_t", "copy", "exec_create", "exec_run_pending", "config", "exec_setup"])
         if op == "config":
             # a configuration reload that names a (possibly setup) node must not change what is a setup node
             i = rng.randrange(n)
@@ -186,6 +186,20 @@ def c11_history(col, rng, hidx, jobref=None):
         elif op == "setup":
             sel = set(setup)
             thunk = lambda: op_setup(d, {})  # noqa: E731
+        elif op == "exec_setup":
+            # executor(target_nodes=T).setup() == setup(target_nodes=T), in both flavours
+            ts = rng.sample(range(n), rng.randint(1, min(3, n)))
+            kw = {"target_nodes": [ids[i] for i in ts]}
+            sel = S.closure(sp, None, None, ts) & set(setup)
+            exo = d.executor(**kw)
+
+            async def _asetup(exo=exo):
+                return await exo.setup()
+
+            thunk = lambda exo=exo, _asetup=_asetup: do(d, lambda: exo.setup(), _asetup)  # noqa: E731
+            op = "setup_t"
+            kw = dict(kw, via="executor.setup()")
+            col.counters["c11_executor_setup_operations"] += 1
         else:
             # an empty target list is a legal empty selection (nothing to set up), different from "not given"
             ts = rng.sample(range(n), rng.randint(0, 2))
@@ -242,23 +256,42 @@ def c11_history(col, rng, hidx, jobref=None):
 
 
 def c11_illegal(col, rng):
-    """setup node depending on a non-setup node / on a DAG argument must be rejected at build."""
+    """setup node depending on a non-setup node / on a DAG argument must be rejected at build - whatever the way the
+    dependency is passed (first / later positional argument, keyword argument, after constants, indexed, activation flag)."""
     pid = "C11"
-    for variant in ("non_setup_dep", "dag_arg"):
-        n = 3
-        if variant == "non_setup_dep":
-            sp = mk_sel_spec(n, [(0, 1), (1, 2)], rng, setup={1})
-        else:
-            sp = mk_sel_spec(n, [(0, 1)], rng, setup={2}, with_param={2})
-        col.evaluations += 1
-        col.counters["c11_illegal_build_cases"] += 1
-        try:
-            S.build_tawazi(sp)
-            col.violation(pid, "illegal_setup_dependency_not_rejected(%s)" % variant, dict(source=S.render(sp)), {"kind": "c11_illegal"})
-        except BaseException as e:  # noqa: BLE001
-            if isinstance(e, (KeyboardInterrupt, SystemExit)):
-                raise
-            col.counters["c11_illegal_build_rejected"] += 1
+    for dep in ("non_setup_dep", "dag_arg"):
+        for how in ("pos_first", "pos_after_const", "kw", "kw_after_const_pos", "flag", "pos_indexed", "second_of_two_deps"):
+            if dep == "dag_arg" and how == "pos_indexed":
+                continue
+            # site 0: plain producer, site 1: a legal setup node, site 2: the offending setup node, site 3: a user
+            sp = mk_sel_spec(4, [(2, 3)], rng, setup={1, 2})
+            bad = ["n", 0, [0] if how == "pos_indexed" else []] if dep == "non_setup_dep" else ["p", "x"]
+            nd = sp["nodes"][2]
+            if how == "pos_first":
+                nd["args"] = [bad]
+            elif how == "pos_after_const":
+                nd["args"] = [["c", "model"], ["c", 3], bad]
+            elif how == "kw":
+                nd["kwargs"] = {"k": bad}
+            elif how == "kw_after_const_pos":
+                nd["args"] = [["c", "model"]]
+                nd["kwargs"] = {"a": ["c", 1], "k": bad}
+            elif how == "flag":
+                nd["active"] = bad
+            elif how == "pos_indexed":
+                nd["args"] = [bad]
+            else:
+                nd["args"] = [["n", 1, []], bad]  # a legal setup dependency first, the illegal one second
+            variant = "%s:%s" % (dep, how)
+            col.evaluations += 1
+            col.counters["c11_illegal_build_cases"] += 1
+            try:
+                S.build_tawazi(sp)
+                col.violation(pid, "illegal_setup_dependency_not_rejected(%s)" % variant, dict(source=S.render(sp)), {"kind": "c11_illegal"})
+            except BaseException as e:  # noqa: BLE001
+                if isinstance(e, (KeyboardInterrupt, SystemExit)):
+                    raise
+                col.counters["c11_illegal_build_rejected"] += 1
 
 
 def c11_nested_setup(col, rng, k, jobref=None):
